@@ -189,6 +189,25 @@ def r82(ctx):
                 ctx.bad(rid, good[0], "the temporary file is renamed while still open (unflushed data)")
             else:
                 ctx.ok(rid, dmp, f"dump to {pname!r}, then os.replace over {final!r} on every normal path (file setup_config reads by default)")
+    # the final name is never absent: write_toml has no effect that takes the file away from its final name
+    # (remove / unlink / rename of the final name to something else) - the only effect on it is the replace
+    nrm = 0
+    for c in _calls(f, lambda c: dotted(c.func) in REMOVERS or dotted(c.func) in ("os.replace", "os.rename", "shutil.move") or (isinstance(c.func, ast.Attribute) and c.func.attr in ("unlink", "rename", "replace") and not c.args[1:2] and dotted(c.func.value) not in ("os", "shutil", "str"))):
+        if not c.args and not isinstance(c.func, ast.Attribute):
+            continue
+        tgt = c.args[0] if c.args and dotted(c.func).split(".")[0] in ("os", "shutil") else (c.func.value if isinstance(c.func, ast.Attribute) else None)
+        if isinstance(tgt, ast.Call) and last_name(tgt) in ("Path", "PurePath") and tgt.args:
+            tgt = tgt.args[0]
+        name = _fold_local(tgt, fl, cfg.node_of(c), consts) if tgt is not None else None
+        nrm += 1
+        if name is not None and _norm(name) == _norm(final):
+            ctx.bad(rid, c, f"write_toml takes {final!r} away from its final name before the new file is in place ({short(c, 60)}): "
+                    "between this effect and the rename no restart file exists - a crash there cannot be restarted from what is on disk",
+                    construct=f"{dotted(c.func) or short(c.func, 30)}({final!r}) in write_toml")
+        elif name is None and dotted(c.func) in REMOVERS:
+            ctx.bad(rid, c, f"write_toml removes a file whose name the analysis cannot follow ({short(c, 60)}); it must not be {final!r}", construct=short(c, 60))
+    if nrm:
+        ctx.ok(rid, f, f"{nrm} rename/remove effect(s) in write_toml examined: none takes {final!r} away from its final name")
 
 
 def r83(ctx):
@@ -920,6 +939,9 @@ def run(ctx):
 
 
 VARIANTS = [
+    B("c08-old-restart-file-removed-before-the-rename", REPEX, '        os.replace("./restart.toml.tmp", "./restart.toml")\n', '        if os.path.isfile("./restart.toml"):\n            os.remove("./restart.toml")\n        os.rename("./restart.toml.tmp", "./restart.toml")\n', "R-8.2", control=True, why="seeded C08_n"),
+    B("c08-old-restart-file-moved-aside-first", REPEX, '        os.replace("./restart.toml.tmp", "./restart.toml")\n', '        if os.path.isfile("./restart.toml"):\n            os.rename("./restart.toml", "./restart.toml.bak")\n        os.rename("./restart.toml.tmp", "./restart.toml")\n', "R-8.2", why="sibling of C08_n: the final name is absent between the two renames"),
+    K("c08-keep-backup-copy-before-replace", REPEX, '        os.replace("./restart.toml.tmp", "./restart.toml")\n', '        if os.path.isfile("./restart.toml"):\n            shutil.copyfile("./restart.toml", "./restart.toml.bak")\n        os.replace("./restart.toml.tmp", "./restart.toml")\n', also=[(REPEX, "import os\n", "import os\nimport shutil\n")], why="a copy leaves the final name in place"),
     B("c08-reissue-locks-last-ensemble-only", REPEX, "            self.swap(traj_idx, ens)\n            self.lock(ens)\n", "            self.swap(traj_idx, ens)\n", "R-8.15", control=True, also=[(REPEX, "        # the re-issued job is in flight again: keep it in the record that\n", "        self.lock(ens)\n        # the re-issued job is in flight again: keep it in the record that\n")], why="seeded C08_m"),
     B("c08-delete-queue-filled-for-rejected-moves", REPEX, "                    # keep delete list:\n                    if len(self.pn_olds) <= self.n - 2:\n                        self.pn_olds[str(pn_old)] = {\n                            \"adress\": self.traj_data[pn_old][\"adress\"],\n                        }\n", "", "R-8.3", control=True, also=[(REPEX, "            pn_news.append(out_traj.path_number)\n", "            if self.config[\"output\"].get(\"delete_old\", False) and pn_old > self.n - 2:\n                if len(self.pn_olds) <= self.n - 2:\n                    self.pn_olds[str(pn_old)] = {\"adress\": self.traj_data[pn_old][\"adress\"]}\n            pn_news.append(out_traj.path_number)\n")], why="seeded C14_l"),
     B("c08-reissue-recorded-as-int", REPEX, "        self.locked.append((enss, trajs0))\n", "        self.locked.append((enss, [i.path_number for i in trajs]))\n", "R-8.14", control=True, why="seeded C08_l (= C06_e)"),
